@@ -43,6 +43,14 @@ type verifOut struct {
 
 func vnum(v any) int64 { return int64(v.(float64)) }
 
+// go-zero caches one go-redis client (and its circuit breaker) per address for the life of the
+// process, and the kernel hands a just-closed port out again: closing a case's server would let
+// a later case inherit the breaker statistics of an earlier one.  Servers are therefore kept
+// open until the whole run is over.
+var verifServers []*miniredis.Miniredis
+
+func verifPark(mr *miniredis.Miniredis) { verifServers = append(verifServers, mr) }
+
 type verifStore struct {
 	mr   *miniredis.Miniredis
 	hard bool
@@ -82,9 +90,10 @@ func verifPeriod(c verifCase) (out verifOut) {
 	}
 	st := &verifStore{mr: mr, hard: c.Hard}
 	defer func() {
-		if !(st.hard && st.down) {
-			mr.Close()
+		if st.down {
+			st.setUp()
 		}
+		verifPark(mr)
 	}()
 	lims := make([]*PeriodLimit, c.Lims)
 	for i := range lims {
@@ -161,7 +170,7 @@ func verifTokenOnce(c verifCase) (out verifOut) {
 			st.setUp()
 		}
 		verifSync(lims)
-		mr.Close()
+		verifPark(mr)
 	}()
 	expect := make([]bool, c.N)
 	for i := range lims {
@@ -246,6 +255,11 @@ func TestVerifC03(t *testing.T) {
 	defer f.Close()
 	w := bufio.NewWriter(f)
 	defer w.Flush()
+	defer func() {
+		for _, mr := range verifServers {
+			mr.Close()
+		}
+	}()
 	for _, c := range cases {
 		var out verifOut
 		if c.Kind == "period" {
